@@ -19,9 +19,15 @@ Readers are known to the oracle by the position of their granted get, never by t
 choose or interpret these ids (they are numbered by first appearance): whatever the id scheme, a reader that is open must be
 protected.  Streams: besides the shared ones, `overlap` (many overlapping readers of one key closed in every order, then pressure or
 purge) and `faults` (disk faults at every job step with requests in between).
+Stream `conc` (shm_common.conc_history): job bodies and completion callbacks run from yield point to yield point, so that several page-in
+jobs read their page files at the same time and requests arrive while a completion is in flight; every granted read is compared with
+what the writer left, as everywhere.  The scripted clock gives wall time, monotonic time and perf_counter unrelated epochs (as on a real
+machine): the oracle speaks of the scripted instants only, so a stamp and a reading taken from different clocks show as a reader that is
+not protected (or never evicted).
 Correspondence: every op list (incl. the epilogue) is evaluated by the Coq model and compared output by output; the model validates
 the reader id that was handed out (it must not be the id of an ongoing read) instead of predicting it."""
 import itertools
+import time as _time
 
 import shm_common as S
 from common import coq_results, load_findings
@@ -30,13 +36,19 @@ TRUSTED = [
     "harness/shm_common.py + harness/fakes/shm_fakes.py (see C08): in-memory SharedMemory/open registry, manual executor, scripted clock/UDP socket; "
     "uuid.uuid4 is scripted only where the implementation still draws reader ids from it (to force collisions with ids of ongoing reads); reader ids are "
     "taken from the responses and numbered by first appearance",
+    "cooperative scheduler for job bodies and callbacks, scripted /dev/shm size (see C08); scripted clock: time_ns/time, monotonic(_ns) and perf_counter(_ns) "
+    "are views of one scripted `now` with unrelated epochs (wall 1.79e18 ns, monotonic three days, perf_counter 77 s); the Coq model is given the wall-clock epoch",
     "hang detection: plain-Lock attributes of the Manager are wrapped from outside (a blocking acquire by the thread that holds the lock is reported at once "
     "instead of blocking); any other blocking call is decided by a watchdog (no progress while every thread of the history sleeps in the kernel at the same "
     "instruction, read from /proc/self/task/*/stat and sys._current_frames)",
     "the oracle's own bookkeeping of generations, writers' closes and granted readers is derived from the requests and responses only",
 ]
 ASSUMPTIONS = [
-    "atomicity of request handlers and of each half of a disk job (as for C08); every order of these steps is covered",
+    "atomicity of request handlers and of each half of a disk job (as for C08); every order of these steps is covered; finer than that (stream conc): "
+    "bodies and callbacks parked at their yield points -- log calls, lock acquisitions, segment and file operations -- with requests and steps of other "
+    "jobs in between; code between two yield points is atomic; Shm/PageInChunks.v: chunk-wise page-in bodies with private buffers commute",
+    "all readings of the clock by the store are readings of ONE clock (the model has one `now` per request); the harness gives the clocks of the time "
+    "module unrelated epochs, a store mixing them disagrees with the model and with the oracle",
     "the md5-derived shmid is injective on the keys in use (model: shmid = key)",
     "segments are created by clients (SharedMemory(create=True), fails if the name exists) and by page-in only; nobody scribbles into an existing segment "
     "(client.py hands out read-only views); the writer's bytes are what its segment holds when its close_callback is accepted (ghost field d_written)",
@@ -287,7 +299,14 @@ class Epilogue:
             # what a new allocation can count on: free space + in-memory datasets without a fresh reader whose segment exists
             evictable = 0
             for key, ds in m.datasets.items():
-                fresh = ds.ongoing_reads and now + 1 - max(ds.ongoing_reads.values()) <= S.STALE
+                # who holds the dataset, by the oracle's own books (scripted instants; the stamps the store keeps are in ITS clock's
+                # epoch): every open reader is on the books, so nothing held by a fresh reader is counted on; where the books were
+                # given up (malformed histories) nothing that has a reader is counted on
+                g = self.watch.gen.get(key)
+                if g is None or g["wild"] or d.wild_write:
+                    fresh = bool(ds.ongoing_reads)
+                else:
+                    fresh = any(now + 1 - t <= S.STALE for t in g["readers"].values())
                 if ds.status.name == "in_memory" and not fresh and d.shmid(key) in d.reg.segs:
                     evictable += ds.size
             room = m.free_space + evictable
@@ -317,12 +336,12 @@ class Epilogue:
         return [p]
 
     def capacity_of(self, d):
-        return d.capacity
+        return d.effective
 
 
 def evaluate(env, cap, ops, rng=None, with_epilogue=True):
     import random
-    w = Watch(cap)
+    w = Watch(S.cfg_of(cap)[2])
     ops = [list(o) for o in ops]      # the run writes the ids it saw into its own copy
     d = S.Driver(env, cap, ops, w)
     ep = Epilogue(w, rng or random.Random(S.hist_key(cap, ops)))
@@ -349,7 +368,7 @@ def evaluate(env, cap, ops, rng=None, with_epilogue=True):
             if fu is not None and fu[0] is ds and getattr(ds, "delayed_purge", True):      # ... and its purge was indeed delayed
                 bad.append((SIG_STUCK, f"op {fu[1]} {ops[fu[1]]}: the page-out of {key} failed while a stale reader held it: its purge was delayed and the dataset is left "
                             f"in paging_out for ever (no job pending, lock held: {d.m.pageout_all.locked()}): {S.snapshot(d.m).get(key)}, free_space {d.m.free_space} of "
-                            f"{cap}; afterwards in this history: {fu[2]}", fu[1]))
+                            f"{d.effective}; afterwards in this history: {fu[2]}", fu[1]))
             elif not g["was_closed"]:
                 # an allocation abandoned by its writer (never closed; evicted as stale-created, cf. stale-writer-readable) whose segment was never
                 # created: page-out and purge both fail on the missing segment.  Not a dataset in the sense of the property (nothing was ever
@@ -358,7 +377,7 @@ def evaluate(env, cap, ops, rng=None, with_epilogue=True):
             else:
                 sig = SIG_READD if S.readd_evidence(d) else "stuck-in-paging-out"
                 bad.append((sig, f"{key} is left in status paging_out with no page-out job pending (nothing will ever move it on, its space is never "
-                            f"returned): {S.snapshot(d.m).get(key)}, free_space {d.m.free_space} of {cap}", len(obs) - 1))
+                            f"returned): {S.snapshot(d.m).get(key)}, free_space {d.m.free_space} of {d.effective}", len(obs) - 1))
     if crash and crash[0] == "Hang":
         # a blocked call is a failure of its own: nothing is granted any more, whatever else is going on in the history
         kind = ops[crash[2]][0] if crash[2] < len(ops) else "?"
@@ -673,7 +692,14 @@ def corpus():
     # the witness of C09_failed_pageout_under_stale_reader_refuted, followed by a patient client, the reader's late close and a purge
     stuck = (4, [["add", "a", 3, 1], ["write", "a", "010203"], ["close", "a", None], ["get", "a", 2, [7]], ["add", "b", 3, 10 + S.STALE], ["io", 0, True], ["cb", 0],
                  ["add", "b", 3, 11 + S.STALE], ["close", "a", 7], ["purge", "a"], ["get", "a", 12 + S.STALE, [8]], ["add", "a", 1, 13 + S.STALE]])
-    return [leak, roundtrip, purge_read, pressure_read, stale_reader, stale_writer, readd, rewrite, stuck]
+    # two consumers come back after a memory squeeze: gets of two on-disk keys back to back, the two page-in bodies take turns
+    # (each has read its chunk before the other copies its own), then both are read
+    two_pageins = (8, [["add", "k1", 3, 1], ["write", "k1", "0a0b0c"], ["close", "k1", None], ["add", "k2", 3, 2], ["write", "k2", "f1f2f3"], ["close", "k2", None],
+                       ["add", "big", 8, 3], ["drain"], ["alloc", "big", "0101010101010101", 3, 0], ["purge", "big"],
+                       ["get", "k1", 10, [1]], ["get", "k2", 11, [2]], ["bstep", 2, False, 3], ["bstep", 3, False, 3], ["bstep", 2, False, 1], ["bstep", 3, False, 1],
+                       ["bstep", 2, False, 9], ["bstep", 3, False, 9], ["cb", 3], ["cb", 2], ["read", "k1", 3, 0], ["read", "k2", 3, 0]])
+    # new entries go to the END: run() refers to the witnesses above by position
+    return [leak, roundtrip, purge_read, pressure_read, stale_reader, stale_writer, readd, rewrite, stuck, two_pageins]
 
 
 LOCK_HEADER = S.HEADER.replace("Shm.ManagerCheck.", "Shm.ManagerCheck Shm.ManagerLocks.")
@@ -691,7 +717,7 @@ def lock_case(d, cap, ops, obs):
     for b in d.lock_marks:
         evs.append(S.clist(["AcqOne" if k in ("acq", "reacquire") else "RelOne" for n, k in d.lock_log[a:b] if n == ONE and k != "busy"]))
         a = b
-    return f"(({S.cZ(cap)}, {o},\n    {S.clist(evs)}) : Z * list op * list (list lev))"
+    return f"(({S.cZ(S.cfg_of(cap)[2])}, {o},\n    {S.clist(evs)}) : Z * list op * list (list lev))"
 
 
 def executed(ops):
@@ -708,6 +734,7 @@ KNOWN = (SIG_READD, SIG_STALE_WRITER, SIG_STUCK)
 
 
 def run(ctx, res):
+    t_start = _time.time()
     listed = {f["signature"] for f in load_findings().get("open", []) if f.get("property") == "C09"}
     res.rule = ("an op list (writes, reads held open incl. beyond the 15-minute staleness window, closes, purges during reads, memory pressure, both halves "
                 "of page-out/page-in jobs in any order incl. injected disk faults, malformed requests, followed by the patient-client epilogue) counts as "
@@ -743,17 +770,25 @@ def run(ctx, res):
     rng = ctx.sub_rng("stuck")
     for _ in range(ctx.n(150, 3000)):
         streams.append(("stuck",) + stuck_history(rng))
-    terms, metas, lock_terms = [], [], []
+    rng = ctx.sub_rng("conc")
+    for _ in range(ctx.n(140, 2500)):
+        streams.append(("conc",) + S.conc_history(rng))
+    rng = ctx.sub_rng("config")
+    streams = [(kind, c if kind == "corpus" else S.with_config(rng, c), o) for kind, c, o in streams]
+    terms, metas, lock_terms, fterms, fmetas = [], [], [], [], []
     erng = ctx.sub_rng("epilogue")
     hangs = 0
     with S.patched() as env:
         for name, present in env.seams.items():
             res.count(f"seam:{name}:{'used' if present else 'absent'}")
+        stream_s = {}
         for kind, cap, ops0 in streams:
             if hangs >= 3:
                 res.count("not-run:after-three-hangs")
                 continue
+            t_h = _time.time()
             d, ops, obs, crash, bad, w, ep = evaluate(env, cap, ops0, erng)
+            stream_s[kind] = stream_s.get(kind, 0.0) + _time.time() - t_h
             res.evaluations += 1
             res.count(f"stream:{kind}")
             # the replayable case of a failure is the history as executed (macros expanded, epilogue included)
@@ -770,6 +805,8 @@ def run(ctx, res):
             res.count(f"epilogue:{ep.verdict}")
             for e in d.events:
                 res.count("event:" + e[0])
+            for k in d.conc:
+                res.count("conc:" + k)
             for sig, what, i in ([b for b in bad if b[0] not in KNOWN] or bad)[:1]:
                 if sig in KNOWN:
                     res.count("known-signature:" + sig)
@@ -779,15 +816,20 @@ def run(ctx, res):
                     res.fail(sig, what, case)
             if len(res.samples) < 3 and kind == "readers" and nontrivial(obs, w):
                 res.samples.append({"capacity": cap, "ops": ops[:14], "observations": obs[:14]})
-            if crash is None and len(obs) == len(ops):
+            if crash is not None or len(obs) != len(ops):
+                res.count("not-compared:crashed")
+            elif d.unmodelled:
+                res.count("not-compared:finer-than-the-model")        # oracle only
+            elif d.fine:
+                fterms.append(S.c_fcase(cap, ops, obs))
+                fmetas.append(({"capacity": cap, "ops": ops, "stream": kind}, obs))
+            else:
                 terms.append(S.c_case(cap, ops, obs))
                 metas.append(({"capacity": cap, "ops": ops, "stream": kind}, obs))
                 if kind in ("corpus", "faults") or len(terms) % 8 == 0:
                     lt = lock_case(d, cap, ops, obs)
                     if lt is not None:
                         lock_terms.append(lt)
-            else:
-                res.count("not-compared:crashed")
         # the witnesses of the _refuted theorems must still fail on the implementation
         for name, sig, idx in (("C09_bytes_preserved_refuted", SIG_READD, 6), ("C09_no_read_before_close_refuted", SIG_STALE_WRITER, 5),
                                ("C09_failed_pageout_under_stale_reader_refuted", SIG_STUCK, 8)):
@@ -799,6 +841,7 @@ def run(ctx, res):
                              {"capacity": wcap, "ops": wops, "observations": obs})
     # the lock model (Shm/ManagerLocks.v) against the events seen on Manager.pageout_one.  Which sections a store takes is not part of
     # the property (only that nothing blocks, which the watchdog decides): a difference is recorded, it is not a verdict
+    t_impl = _time.time()
     if lock_terms:
         lres, llogs = coq_results("C09", LOCK_HEADER, lock_terms, "check_locks", tag="locks", shard=250)
         same = sum(1 for r in lres if r is True)
@@ -811,6 +854,11 @@ def run(ctx, res):
     else:
         res.count("lock-events:not-observable")
     results, logs = coq_results("C09", S.HEADER, terms, "check_case", tag="hist", shard=250)
+    fresults, flogs = coq_results("C09", S.HEADER, fterms, "check_fcase", tag="fine", shard=250) if fterms else ([], [])
+    res.count("compared:fine-grained-histories", len(fresults))
+    res.extra["phase_s"] = {"implementation+oracle": round(t_impl - t_start, 1), "coq-correspondence": round(_time.time() - t_impl, 1),
+                            "per-stream": {k: round(v, 1) for k, v in stream_s.items()}}
+    results, logs, metas = results + fresults, logs + flogs, metas + fmetas
     res.corr_checked += len(results)
     for r, (case, obs) in zip(results, metas):
         if r is not True:
@@ -828,8 +876,9 @@ def search(ctx, res):
     def many():
         rng = ctx.sub_rng("search")
         for i in range(9000):
-            yield [reader_history, S.pressure_history, S.gen_history, S.rewrite_history, S.midpurge_history, overlap_history,
-                   fault_history, stuck_history][i % 8](rng)
+            c, o = [reader_history, S.pressure_history, S.gen_history, S.rewrite_history, S.midpurge_history, overlap_history,
+                    fault_history, stuck_history, S.conc_history][i % 9](rng)
+            yield S.with_config(rng, c), o
     with S.patched() as env:
         for cap, ops in itertools.chain(first, corpus(), many()):
             d, ops2, obs, crash, bad, w, ep = evaluate(env, cap, ops)
